@@ -7,14 +7,15 @@ from .. import cases, oracles
 from . import _align_common as ac
 
 TITLE = "Gamma-cat and gamma-k follow their definition"
-DECIDING = ["M-CATDIS", "M-GAMMACAT", "M-REFUSE", "M-AGREE-1"]
+DECIDING = ["M-CATDIS", "M-GAMMACAT", "M-REFUSE", "M-AGREE-1", "M-CATDIS-AFTER-EDIT"]
 LEVEL = "exploration"
 RULE = ("(A) Alignment.gamma_k_disorder(d, c) on library best / soft alignments and on hand-built random partitions "
         "with every pattern of empty slots (2-5 annotators), c in {None, each category present, one absent}, combined "
         "dissimilarities with every categorical component, alpha, delta_empty - against an independent weighted-mean "
         "reference; (B) GammaResults.gamma_cat / gamma_k against 1 - observed/mean(chance) recomputed from the stored "
         "alignments, <= 1, == 1 on continua whose annotators agree on every category and leave nothing unaligned; "
-        "(C) refusal for non-combined dissimilarities. non-trivial = alignment with >= 1 unitary alignment holding 2 "
+        "(C) refusal for non-combined dissimilarities (gamma-cat, gamma-k of a present and of an absent category); (D) "
+        "hand-built alignments measured, then edited through the public UnitaryAlignment.n_tuple setter, then measured again. non-trivial = alignment with >= 1 unitary alignment holding 2 "
         "real units; distinct by SHA-1")
 ASSUMPTIONS = [
     "weights and values use the combined dissimilarity's own components through their d() (weighting logic is what C12 "
@@ -118,6 +119,28 @@ def check_disorder_case(ctx, case):
         al = cases.build_alignment(cspec, case["alignment"], continuum=continuum if case.get("attach", True) else None)
     for c in cats:
         check_catdis(ctx, al, dissim, c, src)
+    if case.get("edit") and src == "hand" and len(al.unitary_alignments) >= 2:
+        # history on the SAME UnitaryAlignment objects: measured above, now edited through the public n_tuple setter
+        # (a unit moves from one unitary alignment into an empty slot of another), then measured again
+        uas = al.unitary_alignments
+        moved = False
+        order = list(range(len(uas)))
+        ctx.rng.shuffle(order)
+        for i in order:
+            for j in order:
+                if i == j or moved:
+                    continue
+                ti, tj = list(uas[i].n_tuple), list(uas[j].n_tuple)
+                for k, ((a1, u1), (a2, u2)) in enumerate(zip(ti, tj)):
+                    if a1 == a2 and u1 is None and u2 is not None and sum(1 for _, u in tj if u is not None) >= 2:
+                        ti[k], tj[k] = (a1, u2), (a2, None)
+                        uas[i].n_tuple, uas[j].n_tuple = ti, tj
+                        moved = True
+                        break
+        if moved:
+            ctx.count("M-CATDIS-AFTER-EDIT")
+            for c in cats:
+                check_catdis(ctx, al, dissim, c, "hand-after-n_tuple-edit")
 
 
 def check_gamma_case(ctx, case):
@@ -171,7 +194,7 @@ def check_refusal_case(ctx, case):
     dissim = pool.get(dspec)
     continuum = cases.build_continuum(cspec)
     al = continuum.get_best_alignment(dissim)
-    for c in (None, cases.spec_labels(cspec)[0]):
+    for c in (None, cases.spec_labels(cspec)[0], "@no-unit-has-this-category@"):
         ctx.count("M-REFUSE")
         try:
             v = al.gamma_k_disorder(dissim, c)
@@ -181,10 +204,11 @@ def check_refusal_case(ctx, case):
             ctx.observe("refusal_exception", type(e).__name__)
     np.random.seed(1)
     res = continuum.compute_gamma(dissim, n_samples=2)
-    for name in ("gamma_cat", "gamma_k"):
+    for name in ("gamma_cat", "gamma_k", "gamma_k(absent category)"):
         ctx.count("M-REFUSE")
         try:
-            v = res.gamma_cat if name == "gamma_cat" else res.gamma_k(cases.spec_labels(cspec)[0])
+            v = res.gamma_cat if name == "gamma_cat" else res.gamma_k(
+                cases.spec_labels(cspec)[0] if name == "gamma_k" else "@no-unit-has-this-category@")
             ctx.fail(f"{name}-not-refused-for-non-combined", {"returned": repr(v), "dissim": dspec["kind"]}, monitor="M-REFUSE")
         except Exception as e:
             ctx.observe("refusal_exception", type(e).__name__)
@@ -236,6 +260,7 @@ def run(ctx):
         if src == "hand":
             case["alignment"] = cases.random_partition_alignment(rng, cspec, p_join=rng.choice([0.1, 0.5, 0.9]))
             case["attach"] = rng.random() < 0.7
+            case["edit"] = rng.random() < 0.5
         ctx.begin_case(case)
         ctx.observe("source", src)
         ctx.observe("annotators", n)
@@ -260,7 +285,7 @@ def run(ctx):
         ctx.begin_case(case)
         ctx.observe("source", "gamma-agreeing" if agreeing else "gamma")
         check_case(ctx, case)
-    for i in range(ctx.scale(2, 6)):
+    for i in range(ctx.scale(3, 8)):
         dspec = rng.choice([{"kind": "positional", "delta": 1.0}, {"kind": "absolute", "delta": 1.0}])
         cspec = cases.gen_continuum(rng, n_annot=2, max_units=3, allow_empty=False, family="grid")
         case = {"type": "refusal", "continuum": cspec, "dissim": dspec}
